@@ -3,6 +3,7 @@ import json
 import os
 import shutil
 import signal
+import sys
 import subprocess
 import tempfile
 import threading
@@ -28,13 +29,20 @@ class Undecided(Exception):
         self.detail = detail
 
 
+LIVE_PGIDS = set()
+SCRATCH_DIRS = set()
+
+
 def scratch_dir(prefix):
     os.makedirs(SCRATCH_ROOT, exist_ok=True)
-    return tempfile.mkdtemp(prefix="verif-" + prefix + "-", dir=SCRATCH_ROOT)
+    d = tempfile.mkdtemp(prefix="verif-" + prefix + "-", dir=SCRATCH_ROOT)
+    SCRATCH_DIRS.add(d)
+    return d
 
 
 def rm_rf(path):
     shutil.rmtree(path, ignore_errors=True)
+    SCRATCH_DIRS.discard(path)
 
 
 def _rss_kb_tree(pid):
@@ -70,6 +78,26 @@ def _rss_kb_tree(pid):
     return total
 
 
+def kill_children():
+    for pg in list(LIVE_PGIDS):
+        try:
+            os.killpg(pg, signal.SIGKILL)
+        except Exception:
+            pass
+
+
+def install_signal_cleanup():
+    """A check that is itself terminated (outer timeout) must not leave cbmc/verus processes or scratch copies behind."""
+    def handler(signum, frame):
+        kill_children()
+        for d in list(SCRATCH_DIRS):
+            shutil.rmtree(d, ignore_errors=True)
+        sys.stderr.write(f"check: terminated by signal {signum}; children killed, scratch removed; no verdict\n")
+        os._exit(2)
+    for sg in (signal.SIGTERM, signal.SIGINT, signal.SIGHUP):
+        signal.signal(sg, handler)
+
+
 def run(cmd, cwd=None, env=None, timeout=None, rss_limit_gb=None, stdin=None):
     """Run cmd (list). Returns dict(rc, out, err, wall_s, killed) where killed is None|'timeout'|'rss'."""
     e = dict(os.environ)
@@ -80,6 +108,7 @@ def run(cmd, cwd=None, env=None, timeout=None, rss_limit_gb=None, stdin=None):
     p = subprocess.Popen(cmd, cwd=cwd, env=e, stdout=subprocess.PIPE, stderr=subprocess.PIPE,
                          stdin=subprocess.PIPE if stdin is not None else subprocess.DEVNULL,
                          text=True, start_new_session=True)
+    LIVE_PGIDS.add(p.pid)
     killed = {"why": None}
     stop = threading.Event()
 
@@ -100,6 +129,11 @@ def run(cmd, cwd=None, env=None, timeout=None, rss_limit_gb=None, stdin=None):
     th.start()
     out, err = p.communicate(stdin)
     stop.set()
+    LIVE_PGIDS.discard(p.pid)
+    try:
+        os.killpg(p.pid, signal.SIGKILL)   # stragglers of the group (cbmc children of a killed cargo-kani)
+    except Exception:
+        pass
     return {"rc": p.returncode, "out": out, "err": err, "wall_s": time.time() - t0, "killed": killed["why"]}
 
 
